@@ -331,6 +331,78 @@ def _assign_paths(stmts, conds=(), env=None):
     yield tuple(conds), env
 
 
+def _tmpl_number(val):
+    """N if val spells '#' followed by the decimal number N"""
+    if isinstance(val, ast.BinOp) and isinstance(val.op, ast.Add) and T.is_const(val.left, '#'):
+        c = val.right
+        if isinstance(c, ast.Call) and getattr(c.func, 'id', '') == 'str' and len(c.args) == 1:
+            return c.args[0]
+    if isinstance(val, ast.Call) and isinstance(val.func, ast.Attribute) and val.func.attr == 'format' \
+            and T.is_const(val.func.value, '#{}') and len(val.args) == 1 and not val.keywords:
+        return val.args[0]
+    if isinstance(val, ast.BinOp) and isinstance(val.op, ast.Mod) and isinstance(val.left, ast.Constant) \
+            and val.left.value in ('#%d', '#%s', '#%i'):
+        r = val.right
+        if isinstance(r, ast.Tuple):
+            return r.elts[0] if len(r.elts) == 1 else None
+        return r
+    if isinstance(val, ast.JoinedStr) and len(val.values) == 2 and T.is_const(val.values[0], '#') \
+            and isinstance(val.values[1], ast.FormattedValue) and val.values[1].conversion == -1 \
+            and val.values[1].format_spec is None:
+        return val.values[1].value
+    return None
+
+
+def _index_base(model, e, env, depth=0):
+    """b if e evaluates to (0-based index of the first 'A' of the argument codes) + b, else None"""
+    if depth > 5:
+        return None
+    if isinstance(e, ast.Name):
+        v = env.get(e.id)
+        vals = [v] if v is not None else T.resolve_local(model, e)
+        bs = {_index_base(model, x, env, depth + 1) for x in vals} if vals else {None}
+        return bs.pop() if len(bs) == 1 else None
+    if isinstance(e, ast.BinOp) and isinstance(e.op, (ast.Add, ast.Sub)):
+        for a, b in ((e.left, e.right), (e.right, e.left)):
+            if isinstance(b, ast.Constant) and isinstance(b.value, int) and not isinstance(b.value, bool):
+                if isinstance(e.op, ast.Sub) and b is e.left:
+                    continue
+                x = _index_base(model, a, env, depth + 1)
+                if x is not None:
+                    return x + b.value if isinstance(e.op, ast.Add) else x - b.value
+        return None
+    if isinstance(e, ast.Call) and isinstance(e.func, ast.Attribute) and e.func.attr == 'index' \
+            and len(e.args) == 1 and T.is_const(e.args[0], 'A'):
+        return 0
+    if isinstance(e, ast.Call) and getattr(e.func, 'id', '') == 'next' and e.args \
+            and isinstance(e.args[0], ast.GeneratorExp) and len(e.args[0].generators) == 1:
+        g = e.args[0].generators[0]
+        elt = e.args[0].elt
+        if len(g.ifs) != 1 or not isinstance(elt, ast.Name):
+            return None
+        c = g.ifs[0]
+        if not (isinstance(c, ast.Compare) and len(c.ops) == 1 and isinstance(c.ops[0], ast.Eq)
+                and T.is_const(c.comparators[0], 'A')):
+            return None
+        it = g.iter
+        if isinstance(g.target, ast.Name) and g.target.id == elt.id and isinstance(it, ast.Call) \
+                and getattr(it.func, 'id', '') == 'range' and len(it.args) == 1 \
+                and isinstance(c.left, ast.Subscript) and unparse(c.left.slice) == elt.id \
+                and unparse(it.args[0]) == 'len(%s)' % unparse(c.left.value):
+            return 0
+        if isinstance(g.target, ast.Tuple) and len(g.target.elts) == 2 and all(isinstance(x, ast.Name) for x in g.target.elts) \
+                and g.target.elts[0].id == elt.id and isinstance(c.left, ast.Name) and c.left.id == g.target.elts[1].id \
+                and isinstance(it, ast.Call) and getattr(it.func, 'id', '') == 'enumerate' and it.args:
+            start = 0
+            if len(it.args) == 2:
+                start = it.args[1].value if isinstance(it.args[1], ast.Constant) else None
+            for k in it.keywords:
+                if k.arg == 'start':
+                    start = k.value.value if isinstance(k.value, ast.Constant) else None
+            return start if isinstance(start, int) else None
+    return None
+
+
 def ex1(model):
     r = RuleResult('EX1', 'extraction: init_extractions rewrites every macro unconditionally '
                    '(extract template and empty replacement), a listed macro extracts its first '
@@ -370,7 +442,7 @@ def ex1(model):
         r.undec(main, 'template variable of init_extractions not recognised')
     else:
         upto = main.body[:main.body.index(stores['extract'])] if stores['extract'] in main.body else main.body
-        okt = unl = False
+        okt = unl = unrec = False
         for conds, env in _assign_paths(upto):
             val = env.get(tvar)
             listed = None
@@ -379,21 +451,25 @@ def ex1(model):
                     listed = (isinstance(e.ops[0], ast.In) == t)
             is_empty = val is not None and T.is_const(val, '')
             is_tmpl = False
-            if isinstance(val, ast.BinOp) and isinstance(val.op, ast.Add) and T.is_const(val.left, '#'):
-                c = val.right
-                if isinstance(c, ast.Call) and getattr(c.func, 'id', '') == 'str' and isinstance(c.args[0], ast.BinOp) \
-                        and isinstance(c.args[0].op, ast.Add) and T.is_const(c.args[0].right, 1):
-                    idx = c.args[0].left
-                    vals = [env.get(idx.id)] if isinstance(idx, ast.Name) and env.get(idx.id) is not None else \
-                        (T.resolve_local(model, idx) if isinstance(idx, ast.Name) else [idx])
-                    if vals and all(isinstance(v, ast.Call) and T.call_name(v) == 'next' for v in vals):
-                        is_tmpl = True
+            wrong_base = None
+            num = _tmpl_number(val)
+            if num is not None:
+                base = _index_base(model, num, env)
+                if base == 1:
+                    is_tmpl = True
+                elif base is not None:
+                    wrong_base = base
+                else:
+                    unrec = True
             if val is None:
                 r.fail(stores['extract'], 'the template variable %s is not set on a path through '
                        'init_extractions' % tvar)
             elif listed is False and not is_empty:
                 r.fail(stores['extract'], 'a macro that is not listed gets the extraction template %s'
                        % unparse(val)[:40], witness='--extr \\footnote with a document that uses \\caption')
+            elif not (is_empty or is_tmpl) and num is not None and wrong_base is None:
+                r.undec(stores['extract'], 'argument number of the extraction template not recognised: %s'
+                        % unparse(num)[:40])
             elif not (is_empty or is_tmpl):
                 r.fail(stores['extract'], "a listed macro does not extract '#k+1' for its first mandatory "
                        "argument but %s" % unparse(val)[:40], stmt='extraction template')
@@ -403,7 +479,7 @@ def ex1(model):
                 okt = True
         if okt:
             r.ok(stores['extract'], "template '#' + str(k + 1) for the first A at index k", nontrivial=True)
-        elif not r.findings:
+        elif not r.findings and not unrec:
             r.fail(main, "a listed macro does not extract '#k+1' for its first mandatory argument",
                    stmt='extraction template')
         if unl:
@@ -427,7 +503,7 @@ def ex1(model):
     else:
         r.fail(p.node, 'with an extraction list the main text is not dropped', stmt='main = [] under extract')
     # flows appended once, in order
-    loop2 = [s for s in p.node.body if isinstance(s, ast.For) and 'extracted' in unparse(s.iter)]
+    loop2 = [s for s in T.body_with_tail(model, p) if isinstance(s, ast.For) and 'extracted' in unparse(s.iter)]
     if loop2 and isinstance(loop2[0].target, ast.Name):
         v = loop2[0].target.id
         adds = []
@@ -440,8 +516,8 @@ def ex1(model):
             if val is None:
                 continue
             for x in ast.walk(val):
-                if isinstance(x, ast.Name) and x.id == v and not isinstance(
-                        getattr(x, '_parent', None), (ast.Subscript, ast.Attribute, ast.Call)):
+                if isinstance(x, ast.Name) and x.id == v and (x is val or not isinstance(
+                        getattr(x, '_parent', None), (ast.Subscript, ast.Attribute, ast.Call))):
                     adds.append(n)
         if len(adds) == 1 and not isinstance(loop2[0].iter, ast.Call):
             r.ok(adds[0], 'each extracted flow is appended exactly once, in list order', nontrivial=True)
